@@ -157,6 +157,11 @@ def kc_directed(rng):
             for n in names:     # the input arrives late: a first get fails, then the input is given
                 out.append(([42, dual, kc_setup(D, bayes, skip=[n]) + [[20, g], [20, g], kc_set(D, n), [20, g]]], 'late:' + n))
             out.append(([42, dual, kc_setup(D, bayes, skip=['setData']) + [kc_set(D, 'setData', drop=['Means']), [20, g]]], 'nullMeans'))
+            ARGS = {'setData': ['Z'], 'setLHS': ['Sigma', 'X'], 'setRHS': ['Sigma0', 'X0'], 'setVar': ['Sigma00']}
+            for n in ARGS:
+                for a in ARGS[n]:
+                    if a in ('X', 'X0') and nbfl == 0: continue
+                    out.append(([42, dual, kc_setup(D, bayes, skip=[n]) + [kc_set(D, n, drop=[a]), [20, g], [20, g]]], 'drop:' + a))
             if nbfl > 0:
                 out.append(([42, dual, kc_setup(D, bayes, skip=['setLHS']) + [kc_set(D, 'setLHS', drop=['X']), [20, g], [20, g]]], 'nullX'))
                 out.append(([42, dual, base + [[20, g], kc_set(D, 'setLHS', drop=['X']), [20, g]]], 'dropX'))
@@ -927,10 +932,16 @@ def carrier_optim(ctx, runner, exe):
             ctx.count(sx_str([c[1], c[2], c[3][:k + 1]])[:2500], True)
             if not vals_close(h, f, 1e-9):
                 # the call that left the cache behind: the last failing *Optim call before k
+                # the call that left the cache behind: the last earlier call of a function that has an unbalanced exit path
+                # (a failing one first: on this tree the unbalanced paths are the error returns)
+                unb = set(n.split('::')[-1] for n, w in failed)
                 culprit = None
                 for j in range(k - 1, -1, -1):
-                    if c[3][j][0] in (0, 1) and im[j][0][0] == 1: culprit = c[3][j]; break
-                key = 'ACovAnisoList::%s:early-return-leaves-cache' % (COV_FN[culprit[0]] if culprit else COV_FN[o[0]])
+                    if c[3][j][0] in (0, 1) and im[j][0][0] == 1 and COV_FN[c[3][j][0]] in unb: culprit = c[3][j]; break
+                if culprit is None:
+                    for j in range(k - 1, -1, -1):
+                        if c[3][j][0] in (0, 1) and COV_FN[c[3][j][0]] in unb: culprit = c[3][j]; break
+                key = 'ACovAnisoList::%s:leaves-optimization-cache' % (COV_FN[culprit[0]] if culprit else COV_FN[o[0]])
                 small = [c[0], c[1], c[2], ([culprit] if culprit else []) + [o]]
                 rc2, r2 = run_impl(ctx, exe, write_cases(ctx, 'cov_shrink', [small]))
                 if r2 and len(r2[0]) == len(small[3]) and not vals_close(r2[0][-1][0], r2[0][-1][1], 1e-9):
@@ -944,7 +955,7 @@ def carrier_optim(ctx, runner, exe):
         ctx.violation(key, text, {'case': sx_str(c), 'history': cov_pretty(c)})
         ctx.sample({'key': key, 'history': cov_pretty(c)})
     for name, w in failed:
-        key = '%s:early-return-leaves-cache' % name
+        key = '%s:leaves-optimization-cache' % name
         if key not in witnesses:
             ctx.violation(key, '%s has the exit path %s that leaves the optimisation cache prepared; no history exhibiting it was found' % (name, w),
                           {'function': name, 'path': w, 'theorem': 'C10_optim_history_independent / obligation C10_optim_balanced'}, found_input=False)
